@@ -148,8 +148,8 @@ def run(ctx):
     from ..observe import install
     import dsw
     install([dsw.operation])
-    LB = 13 if ctx.quick else 15
-    LD = 6 if ctx.quick else 8
+    LB = 14 if ctx.quick else 16
+    LD = 7 if ctx.quick else 8
     ch = []
     for L in range(0, LB + 1):
         ch += [(L, lo, hi) for lo, hi in core.ranges(1 << L, 512)]
@@ -167,6 +167,6 @@ def run(ctx):
     ctx.rule = ('one case = one bit array / DNA string, converted to a number on the string and the integer path (list and '
                 'numpy containers) and back at the original and at a wider width, compared with Python int(...) / base-4 '
                 'Horner; all arrays/strings up to the bound (which is all numbers below 2^L / 4^L at each width L) and the '
-                'long family; non-trivial = has a leading zero/A and a non-zero body')
+                'long family; non-trivial = value is neither 0 nor all-ones (bits) / has a leading A and a non-A body (DNA)')
     ctx.assumptions = ['integer-typed path is exercised with Python int elements (documented list input); numpy containers on the '
                        'integer path only below 2^62 (beyond that numpy int64 wraps: outside the statement)']
